@@ -95,7 +95,7 @@ reg("C01",
     "to one, rescaling normalises the tropical polynomials, Box-Muller radius identity, the weighted propagator sum at the returned "
     "momenta equals c^2|q|^2 + (p^T X p - u^T L^-1 u), Jacobian determinant of the momentum map det(cQ^-T)^2 det L = c^(2L), gauge "
     "invariance of the weight; collected in `reduction`. The integral identity itself needs Schwinger parametrisation, Borinsky's "
-    "sector-density theorem and the inverse-CDF lemma, which are cited, not formalised; the Box-Muller theorem is proved (C13.boxMuller_law). Tie to the code: end-to-end correspondence "
+    "sector-density theorem and the inverse-CDF lemma, which are cited, not formalised; the Box-Muller theorem (C13.boxMuller_law) and the Gaussian law of the loop momenta (C10.momenta_law) are proved. Tie to the code: end-to-end correspondence "
     "of sample on multi-loop/massive/non-trivial routings; supporting fixed-seed Monte Carlo against closed forms (tadpole, bubble, "
     "two-tadpole product under two routings; mean of jacobian*g = (pi/alpha)^(DL/2) for triangle, sunrise k1+-k2, double triangle, banana).",
     "Three classical theorems cited; Monte Carlo is a statistical supporting test (6 sigma + 0.5%), not a proof.",
@@ -152,6 +152,8 @@ reg("C10",
     "sum of one component is c^2|q|^2 + (p^T X p - u^T L^-1 u), and summed over D components plus masses equals v(1+|q|^2/2 lambda). "
     "End to end (model_identity): for arbitrary well-formed lists, the model's own chain lMatrix -> decompose -> uVectors -> "
     "vPolynomial -> loopMomenta returns momenta at which sum_e x_e(|q_e|^2+m_e^2) = v(1+|q|^2/2 lambda) whenever the pivots are positive. "
+    "Distributional form (momenta_law, Mathlib measure theory): if q carries the standard Gaussian weight then k = c Q^-T q - L^-1 u carries "
+    "sqrt(det L)/c^L exp(-(k+L^-1u)^T L (k+L^-1u)/(2c^2)), i.e. centre -L^-1u and covariance c^2 L^-1 with c^2 = V/(2 lambda). "
     "On the real code the scalar identity is evaluated exactly at the returned momenta (incl. loops with u_l = 0, sparse bases).",
     "Rounding measured with condition-scaled tolerance; links between the abstract matrices and the model lists proved by the closed forms.",
     "Lean 4 theorems (Mathlib matrices) + differential correspondence + exact oracle",
